@@ -324,6 +324,23 @@ func TestVerif_C07Reply(t *testing.T) {
 		before, until *int
 	}
 	orderTotals := map[string]int{}
+	// replay mode: only the requests recorded in the replay file (same seed => same fixture)
+	var replayKeys map[string]bool
+	if rp := vh.Replay(); rp != "" {
+		replayKeys = map[string]bool{}
+		var doc struct {
+			Failures []struct {
+				Replay vc07rReplay `json:"replay"`
+			} `json:"failures"`
+		}
+		if raw, err := os.ReadFile(rp); err == nil && json.Unmarshal(raw, &doc) == nil {
+			for _, f := range doc.Failures {
+				if f.Replay.Request != "" {
+					replayKeys[fmt.Sprintf("a%d l%d b%s u%s", f.Replay.Addr, f.Replay.Limit, vc07rCoqOpt(f.Replay.Before), vc07rCoqOpt(f.Replay.Until))] = true
+				}
+			}
+		}
+	}
 	for ai, a := range addrs {
 		h := vc07rFlat(a)
 		n := len(h)
@@ -404,6 +421,12 @@ func TestVerif_C07Reply(t *testing.T) {
 			sigsOnly := rng.Intn(4) != 0
 			toCoq := rng.Intn(3) == 0 // every third parameter set also goes to the Coq checker (all its distinct replies)
 			key := fmt.Sprintf("a%d l%d b%s u%s", ai, p.limit, vc07rCoqOpt(p.before), vc07rCoqOpt(p.until))
+			if replayKeys != nil {
+				if !replayKeys[key] {
+					continue
+				}
+				toCoq = true
+			}
 			seen := map[string]bool{}
 			orders := map[string]int{}
 			var firstBad *vc07rReplay
